@@ -221,6 +221,11 @@ def _process_signature(xsd_type, args, kwargs):
 
         if values is not None:
             for key, value in values.items():
+                if key in result and key in kwargs:
+                    raise TypeError(
+                        "%s() got multiple values for argument %r"
+                        % (xsd_type.qname or "ComplexType", key)
+                    )
                 if key not in result:
                     result[key] = value
 
